@@ -136,3 +136,64 @@ def cli_part(check, cases):
                                 case={"source": text, "lang": lang, "multi_file": multi},
                                 impl={"rc": r["rc"], "stderr": r["err"][-2000:]}, failing_input=True)
                 return
+
+
+def big_tree_part(check):
+    """source trees much larger than the walker's bounded result channel (100): every file yields a result; with and
+    without item errors; single- and multi-file mode; several walker thread counts"""
+    rng = check.rng
+    sizes = [130, 260, 513] if check.thorough else [130, 257]
+    for k, n in enumerate(sizes):
+        for mode in ("single", "multi"):
+            lang = LANGS[(k * 2 + (mode == "multi")) % 6]
+            with_error = (k + (mode == "multi")) % 2 == 1
+            with Scratch() as sc:
+                for i in range(n):
+                    crate = "c%d" % (i % 7)
+                    body = "#[typeshare]\npub struct T%d { pub a: u8 }\n" % i
+                    if with_error and i == n // 2:
+                        body += "#[typeshare]\npub struct Bad%d(pub u8, pub u8);\n" % i
+                    sc.write("ws/%s/src/f%d.rs" % (crate, i), body)
+                out = ["-d", sc.path("outdir")] if mode == "multi" else ["-o", sc.path("out." + EXT[lang])]
+                threads = rng.choice(["1", "2", "8", None])
+                env = {"TYPESHARE_VERIF_THREADS": threads} if threads else {}
+                r = run_cli(["--lang", lang] + out + lang_args(lang) + [sc.path("ws")], cwd=sc.dir, timeout=60, env=env)
+                text = ""
+                if r["rc"] == 0:
+                    if mode == "multi":
+                        for fn in sorted(os.listdir(sc.path("outdir"))):
+                            text += open(os.path.join(sc.path("outdir"), fn), encoding="utf-8").read()
+                    else:
+                        text = open(sc.path("out." + EXT[lang]), encoding="utf-8").read()
+            check.saw(("big-tree", n, mode, lang, with_error), nontrivial=True)
+            check.count("big-tree-%s-%s" % (mode, "with-error" if with_error else "clean"))
+            problem = None
+            if r["timed_out"]:
+                problem = "did not terminate within 60 s on a tree of %d annotated files" % n
+            elif "panicked at" in r["err"]:
+                problem = "panicked: " + [l for l in r["err"].splitlines() if "panicked at" in l][0]
+            elif with_error and (r["rc"] == 0 or ("f%d.rs" % (n // 2)) not in r["err"]):
+                problem = "exit status %s although f%d.rs holds an unsupported item (or the diagnostic does not name it)" % (r["rc"], n // 2)
+            elif not with_error and r["rc"] != 0:
+                problem = "exit status %s: %s" % (r["rc"], r["err"][-300:])
+            elif not with_error:
+                missing = [i for i in range(n) if not re.search(r"\bT%d\b" % i, text)]
+                if missing:
+                    problem = "%d of %d definitions are missing from the output (first: T%d)" % (len(missing), n, missing[0])
+            if problem:
+                check.violation("typeshare --lang %s (%s-file mode, %d files, walker threads %s): %s" % (lang, mode, n, threads or "default", problem),
+                                case={"files": n, "mode": mode, "lang": lang, "with_error": with_error, "threads": threads},
+                                impl={"rc": r["rc"], "stderr": r["err"][-1000:]}, failing_input=True)
+                return
+
+
+_run_small = run
+
+
+def run(check):
+    _run_small(check)
+    if not check.violations:
+        big_tree_part(check)
+    check.rule += ("; trees of 130-257 (thorough 513) annotated files in 7 crates - more results than the walker's bounded channel "
+                   "holds - clean and with one unsupported item in the middle, single- and multi-file mode, 1/2/8/default walker "
+                   "threads: termination within 60 s, exit status, the offending file named, no definition missing")
